@@ -199,6 +199,7 @@ impl<K: CacheKey + 'static> MemoryCache<K> {
 
     /// Perform eviction based on configured policy
     fn perform_eviction(&self) {
+        vp_sched!("mem.evict.begin");
         if !self.needs_eviction() {
             return;
         }
@@ -235,8 +236,11 @@ impl<K: CacheKey + 'static> MemoryCache<K> {
         let to_evict = candidates.into_iter().take(count);
 
         for (key, _) in to_evict {
+            vp_sched!("mem.evict.remove");
             if let Some((_, entry)) = self.storage.remove(&key) {
+                vp_sched!("mem.evict.count");
                 self.entry_count.fetch_sub(1, Ordering::Relaxed);
+                vp_sched!("mem.evict.usage");
                 self.memory_usage
                     .fetch_sub(entry.size_bytes as u64, Ordering::Relaxed);
                 self.metrics.record_eviction(entry.size_bytes);
@@ -258,8 +262,11 @@ impl<K: CacheKey + 'static> MemoryCache<K> {
         let to_evict = candidates.into_iter().take(count);
 
         for (key, _) in to_evict {
+            vp_sched!("mem.evict.remove");
             if let Some((_, entry)) = self.storage.remove(&key) {
+                vp_sched!("mem.evict.count");
                 self.entry_count.fetch_sub(1, Ordering::Relaxed);
+                vp_sched!("mem.evict.usage");
                 self.memory_usage
                     .fetch_sub(entry.size_bytes as u64, Ordering::Relaxed);
                 self.metrics.record_eviction(entry.size_bytes);
@@ -281,8 +288,11 @@ impl<K: CacheKey + 'static> MemoryCache<K> {
         let to_evict = candidates.into_iter().take(count);
 
         for (key, _) in to_evict {
+            vp_sched!("mem.evict.remove");
             if let Some((_, entry)) = self.storage.remove(&key) {
+                vp_sched!("mem.evict.count");
                 self.entry_count.fetch_sub(1, Ordering::Relaxed);
+                vp_sched!("mem.evict.usage");
                 self.memory_usage
                     .fetch_sub(entry.size_bytes as u64, Ordering::Relaxed);
                 self.metrics.record_eviction(entry.size_bytes);
@@ -304,8 +314,11 @@ impl<K: CacheKey + 'static> MemoryCache<K> {
         let to_evict = keys.into_iter().take(count);
 
         for key in to_evict {
+            vp_sched!("mem.evict.remove");
             if let Some((_, entry)) = self.storage.remove(&key) {
+                vp_sched!("mem.evict.count");
                 self.entry_count.fetch_sub(1, Ordering::Relaxed);
+                vp_sched!("mem.evict.usage");
                 self.memory_usage
                     .fetch_sub(entry.size_bytes as u64, Ordering::Relaxed);
                 self.metrics.record_eviction(entry.size_bytes);
@@ -328,8 +341,11 @@ impl<K: CacheKey + 'static> MemoryCache<K> {
             .collect();
 
         for key in expired_keys {
+            vp_sched!("mem.evict.remove");
             if let Some((_, entry)) = self.storage.remove(&key) {
+                vp_sched!("mem.evict.count");
                 self.entry_count.fetch_sub(1, Ordering::Relaxed);
+                vp_sched!("mem.evict.usage");
                 self.memory_usage
                     .fetch_sub(entry.size_bytes as u64, Ordering::Relaxed);
                 self.metrics.record_eviction(entry.size_bytes);
@@ -371,6 +387,7 @@ impl<K: CacheKey + 'static> AsyncCache<K> for MemoryCache<K> {
     async fn get(&self, key: &K) -> CacheResult<Option<Bytes>> {
         let start_time = Instant::now();
 
+        vp_sched!("mem.get.lookup");
         if let Some(entry) = self.storage.get(key) {
             if entry.is_expired() {
                 // Need to collect info and drop the guard before removing
@@ -378,8 +395,11 @@ impl<K: CacheKey + 'static> AsyncCache<K> for MemoryCache<K> {
                 drop(entry); // Drop the guard before attempting to remove
 
                 // Remove expired entry
+                vp_sched!("mem.get.expired.remove");
                 if self.storage.remove(key).is_some() {
+                    vp_sched!("mem.get.expired.count");
                     self.entry_count.fetch_sub(1, Ordering::Relaxed);
+                    vp_sched!("mem.get.expired.usage");
                     self.memory_usage
                         .fetch_sub(size_bytes as u64, Ordering::Relaxed);
                 }
@@ -411,6 +431,7 @@ impl<K: CacheKey + 'static> AsyncCache<K> for MemoryCache<K> {
         let size_bytes = value.len();
 
         // Check capacity and evict if necessary
+        vp_sched!("mem.put.check");
         if self.needs_eviction() {
             self.perform_eviction();
         }
@@ -418,10 +439,13 @@ impl<K: CacheKey + 'static> AsyncCache<K> for MemoryCache<K> {
         let entry = Arc::new(MemoryCacheEntryInner::new(value, size_bytes, Some(ttl)));
 
         // Insert or update entry
+        vp_sched!("mem.put.insert");
         if let Some(old_entry) = self.storage.insert(key, entry) {
             // Updating existing entry - adjust memory usage
             let old_size = old_entry.size_bytes as u64;
             let new_size = size_bytes as u64;
+
+            vp_sched!("mem.put.replace.usage");
 
             if new_size > old_size {
                 self.memory_usage
@@ -432,7 +456,9 @@ impl<K: CacheKey + 'static> AsyncCache<K> for MemoryCache<K> {
             }
         } else {
             // New entry
+            vp_sched!("mem.put.new.count");
             self.entry_count.fetch_add(1, Ordering::Relaxed);
+            vp_sched!("mem.put.new.usage");
             self.memory_usage
                 .fetch_add(size_bytes as u64, Ordering::Relaxed);
         }
@@ -442,6 +468,7 @@ impl<K: CacheKey + 'static> AsyncCache<K> for MemoryCache<K> {
     }
 
     async fn contains(&self, key: &K) -> CacheResult<bool> {
+        vp_sched!("mem.contains.lookup");
         if let Some(entry) = self.storage.get(key) {
             if entry.is_expired() {
                 // Need to collect info and drop the guard before removing
@@ -449,8 +476,11 @@ impl<K: CacheKey + 'static> AsyncCache<K> for MemoryCache<K> {
                 drop(entry); // Drop the guard before attempting to remove
 
                 // Clean up expired entry
+                vp_sched!("mem.contains.expired.remove");
                 if self.storage.remove(key).is_some() {
+                    vp_sched!("mem.contains.expired.count");
                     self.entry_count.fetch_sub(1, Ordering::Relaxed);
+                    vp_sched!("mem.contains.expired.usage");
                     self.memory_usage
                         .fetch_sub(size_bytes as u64, Ordering::Relaxed);
                 }
@@ -464,8 +494,11 @@ impl<K: CacheKey + 'static> AsyncCache<K> for MemoryCache<K> {
     }
 
     async fn remove(&self, key: &K) -> CacheResult<bool> {
+        vp_sched!("mem.remove.remove");
         if let Some((_, entry)) = self.storage.remove(key) {
+            vp_sched!("mem.remove.count");
             self.entry_count.fetch_sub(1, Ordering::Relaxed);
+            vp_sched!("mem.remove.usage");
             self.memory_usage
                 .fetch_sub(entry.size_bytes as u64, Ordering::Relaxed);
             Ok(true)
@@ -475,8 +508,11 @@ impl<K: CacheKey + 'static> AsyncCache<K> for MemoryCache<K> {
     }
 
     async fn clear(&self) -> CacheResult<()> {
+        vp_sched!("mem.clear.storage");
         self.storage.clear();
+        vp_sched!("mem.clear.count");
         self.entry_count.store(0, Ordering::Relaxed);
+        vp_sched!("mem.clear.usage");
         self.memory_usage.store(0, Ordering::Relaxed);
         self.metrics.reset();
         Ok(())
@@ -487,6 +523,7 @@ impl<K: CacheKey + 'static> AsyncCache<K> for MemoryCache<K> {
     }
 
     async fn size(&self) -> CacheResult<usize> {
+        vp_sched!("mem.size");
         Ok(self.entry_count.load(Ordering::Relaxed))
     }
 }
